@@ -22,7 +22,7 @@ class Prop(G.InputPropBase):
             "(real tokens = items.map expected); the rest tie the model to the code.")
     ASSUMPTIONS = [
         "the input protocol is the ECMA-48 / xterm ctlseqs / NVT subset transcribed in Tpp.Ref.Input",
-        "numeric parameters that select a key, modifier or repeat count are below 2^31 (atoi; larger values: see C20 known finding)",
+        "a repeat count is below 2^31 (it is reported as an int; larger values are clamped by argument_to_integer since fix 1071cf8); other parameters are unbounded",
         "Enter is reported with sequence '\\n' for every line-ending form (pinned by the test-suite)",
     ]
 
